@@ -21,7 +21,6 @@ use crate::rng::Rng;
 use crate::typed;
 use crate::val::{has_described_array_elem, has_unsupported_array, hex};
 use fe2o3_amqp_types::messaging::{Accepted, DeliveryState, Outcome, Received, Rejected, Released};
-use fe2o3_amqp_types::performatives::*;
 use fe2o3_amqp_types::sasl::{SaslChallenge, SaslResponse};
 use fe2o3_amqp_types::transaction::{Declare, Declared, Discharge, TransactionalState};
 use serde::de::DeserializeOwned;
@@ -106,6 +105,46 @@ fn decode_fields<T: Comp + DeserializeOwned>(bytes: &[u8]) -> String {
     }
 }
 
+
+/// the field vector of the variant an enum of composites picks for these bytes (`-` when the type is not
+/// a variant of Performative / DeliveryState)
+fn decode_via_enum(code: u64, bytes: &[u8]) -> String {
+    use fe2o3_amqp_types::performatives::Performative as P;
+    let r = catch_unwind(AssertUnwindSafe(|| -> Result<(u64, Vec<Vec<u8>>), ()> {
+        if (0x10..=0x18).contains(&code) {
+            Ok(match serde_amqp::from_slice::<P>(bytes).map_err(|_| ())? {
+                P::Open(x) => (0x10, x.fields()),
+                P::Begin(x) => (0x11, x.fields()),
+                P::Attach(x) => (0x12, x.fields()),
+                P::Flow(x) => (0x13, x.fields()),
+                P::Transfer(x) => (0x14, x.fields()),
+                P::Disposition(x) => (0x15, x.fields()),
+                P::Detach(x) => (0x16, x.fields()),
+                P::End(x) => (0x17, x.fields()),
+                P::Close(x) => (0x18, x.fields()),
+            })
+        } else {
+            Ok(match serde_amqp::from_slice::<DeliveryState>(bytes).map_err(|_| ())? {
+                DeliveryState::Received(x) => (0x23, x.fields()),
+                DeliveryState::Accepted(x) => (0x24, x.fields()),
+                DeliveryState::Rejected(x) => (0x25, x.fields()),
+                DeliveryState::Released(x) => (0x26, x.fields()),
+                DeliveryState::Modified(x) => (0x27, x.fields()),
+                DeliveryState::Declared(x) => (0x33, x.fields()),
+                DeliveryState::TransactionalState(x) => (0x34, x.fields()),
+            })
+        }
+    }));
+    if !((0x10..=0x18).contains(&code) || (0x23..=0x27).contains(&code) || code == 0x33 || code == 0x34) {
+        return "-".into();
+    }
+    match r {
+        Ok(Ok((c, f))) => format!("{}:{}", c, join(&f)),
+        Ok(Err(())) => "err".into(),
+        Err(_) => "PANIC".into(),
+    }
+}
+
 /// is the field absent in the sense of the serializer (None / equal to its default)?
 fn absent(kind: u8, field: &[u8], dflt: &Option<Vec<u8>>) -> bool {
     match kind {
@@ -153,7 +192,7 @@ fn run_item<T: Comp + Serialize + DeserializeOwned>(x: &T, r: &mut Rng, out: &mu
     };
     let dec = decode_fields::<T>(&enc);
     let line = format!("{} canon -", head);
-    out.case(&line, &format!("enc={} dec={}", hex(&enc), dec));
+    out.case(&line, &format!("enc={} dec={} enum={}", hex(&enc), dec, decode_via_enum(T::CODE, &enc)));
     out.nontrivial(&line);
     if normal && dec != expect {
         out.violation("c03-comp-roundtrip", &format!("from_slice(to_vec(x)) has fields {} instead of {}", dec, expect), &line);
@@ -180,11 +219,19 @@ fn run_item<T: Comp + Serialize + DeserializeOwned>(x: &T, r: &mut Rng, out: &mu
         let mut bytes = descriptor_bytes(T::CODE, T::NAME, r.below(4));
         bytes.extend(list_bytes(&elems, r.chance(1, 3)));
         let dec = decode_fields::<T>(&bytes);
+        let via = decode_via_enum(T::CODE, &bytes);
         let line = format!("{} var {}", head, hex(&bytes));
-        out.case(&line, &format!("dec={}", dec));
+        out.case(&line, &format!("dec={} enum={}", dec, via));
         out.count("layout: spec-valid variant");
         if normal && dec != expect {
             out.violation("c05-comp-variant", &format!("a spec-valid layout decodes to {} instead of {}", dec, expect), &line);
+        }
+        if normal && via != "-" && via != format!("{}:{}", T::CODE, expect) {
+            out.violation(
+                "c05-comp-variant-enum",
+                &format!("a spec-valid layout read through the enum (Performative / DeliveryState) gives {} instead of {}:{}", via, T::CODE, expect),
+                &line,
+            );
         }
     }
     // broken layouts (compared with the model only)
@@ -194,7 +241,7 @@ fn run_item<T: Comp + Serialize + DeserializeOwned>(x: &T, r: &mut Rng, out: &mu
         let k = r.below(n as u64) as usize;
         let mut b1 = descriptor_bytes(T::CODE, T::NAME, 0);
         b1.extend(list_bytes(&full[..k], false));
-        out.case(&format!("{} var {}", head, hex(&b1)), &format!("dec={}", decode_fields::<T>(&b1)));
+        out.case(&format!("{} var {}", head, hex(&b1)), &format!("dec={} enum={}", decode_fields::<T>(&b1), decode_via_enum(T::CODE, &b1)));
         out.count("layout: list cut short");
         // a null in one position
         let k = r.below(n as u64) as usize;
@@ -202,7 +249,7 @@ fn run_item<T: Comp + Serialize + DeserializeOwned>(x: &T, r: &mut Rng, out: &mu
         e2[k] = vec![0x40];
         let mut b2 = descriptor_bytes(T::CODE, T::NAME, 0);
         b2.extend(list_bytes(&e2, false));
-        out.case(&format!("{} var {}", head, hex(&b2)), &format!("dec={}", decode_fields::<T>(&b2)));
+        out.case(&format!("{} var {}", head, hex(&b2)), &format!("dec={} enum={}", decode_fields::<T>(&b2), decode_via_enum(T::CODE, &b2)));
         out.count("layout: null in a random position");
         // the count promises more than the bytes hold
         let mut b3 = descriptor_bytes(T::CODE, T::NAME, 0);
@@ -212,7 +259,7 @@ fn run_item<T: Comp + Serialize + DeserializeOwned>(x: &T, r: &mut Rng, out: &mu
         b3.push(((body.len() + 1) & 0xff) as u8);
         b3.push(n as u8);
         b3.extend(body);
-        out.case(&format!("{} var {}", head, hex(&b3)), &format!("dec={}", decode_fields::<T>(&b3)));
+        out.case(&format!("{} var {}", head, hex(&b3)), &format!("dec={} enum={}", decode_fields::<T>(&b3), decode_via_enum(T::CODE, &b3)));
         out.count("layout: count beyond the bytes");
     }
     // one element more than the type has fields, and a foreign descriptor
@@ -220,11 +267,11 @@ fn run_item<T: Comp + Serialize + DeserializeOwned>(x: &T, r: &mut Rng, out: &mu
     e4.push(vec![0x52, 0x07]);
     let mut b4 = descriptor_bytes(T::CODE, T::NAME, 0);
     b4.extend(list_bytes(&e4, false));
-    out.case(&format!("{} var {}", head, hex(&b4)), &format!("dec={}", decode_fields::<T>(&b4)));
+    out.case(&format!("{} var {}", head, hex(&b4)), &format!("dec={} enum={}", decode_fields::<T>(&b4), decode_via_enum(T::CODE, &b4)));
     out.count("layout: one element too many");
     let mut b5 = descriptor_bytes(T::CODE ^ 0x80, "amqp:nothing:list", r.below(4));
     b5.extend(list_bytes(&fields, false));
-    out.case(&format!("{} var {}", head, hex(&b5)), &format!("dec={}", decode_fields::<T>(&b5)));
+    out.case(&format!("{} var {}", head, hex(&b5)), &format!("dec={} enum={}", decode_fields::<T>(&b5), decode_via_enum(T::CODE, &b5)));
     out.count("layout: foreign descriptor");
 }
 
